@@ -1618,9 +1618,10 @@ def run_contract(ctx: ContractContext) -> list[TestResult]:
 
         return []
 
-    # initialize the frontier and visited states using the initial setup state
+    # initialize the frontier using the initial setup state
+    # note: the setup state is not marked as visited: its block timestamp is concrete, whereas
+    # a state with the same contents reached by a (no-op) transaction has a later timestamp
     ctx.frontier_states[0] = [setup_ex]
-    ctx.visited.add(get_state_id(setup_ex))
 
     test_results = run_tests(ctx, setup_ex, ctx.funsigs)
 
